@@ -8,7 +8,7 @@ def run(chk):
         "Decides absence of specific classes of panic; it does not prove the ~500 remaining panic-capable sites (indexing, unwrap on internal "
         "invariants, third-party code) safe. R04a: no coercion result on a run-time value is unwrapped in resolve-reachable stdlib code. R04b: no result "
         "of a `dyn Target` call is unwrapped. R04c: every keyword compile() reads is declared (a mismatch is the 'invalid function signature' panic). "
-        "R04e: no overflow-capable negation / iN::abs / iN::pow of a run-time signed integer. R04f: no unguarded sign-losing cast feeding a count/index. R04g: no str slice/index bound computed from a character count. R04h: divisors and chunk/window/step sizes are constants or compared against zero. R04i: `regex::Captures` is indexed with the panicking `[]` only at the reviewed sites where the group always takes part in the match (an optional or alternated group makes `caps[i]` panic; `caps.get(i)` is the total API). R04j: in resolve-reachable stdlib code the result of a library call whose failure depends on the *content* of its argument (AEAD decryption = authentication, float->Decimal conversion = range, UTF-8 validation, FromStr parsing, regex compilation) is never consumed directly by unwrap/expect; all other unwrap-on-call sites are listed as instances but not decided. R04k: `rust_decimal::Decimal` arithmetic on a run-time operand goes through the `checked_*` API; the `+ - * / %` operator impls panic on overflow and on a zero divisor in every build profile. R04l: ArgumentList::optional_enum accepts a literal only by Value equality with a declared variant (no case folding / trimming / prefix matching on the way), which is what the stdlib's `expect(\"validated enum\")` / `unreachable!()` arms after an enum argument rely on.")
+        "R04e: no overflow-capable negation / iN::abs / iN::pow of a run-time signed integer. R04f: no unguarded sign-losing cast feeding a count/index. R04g: no str slice/index bound computed from a character count. R04h: divisors and chunk/window/step sizes are constants or compared against zero. R04i: `regex::Captures` is indexed with the panicking `[]` only at the reviewed sites where the group always takes part in the match (an optional or alternated group makes `caps[i]` panic; `caps.get(i)` is the total API). R04j: in resolve-reachable stdlib code the result of a library call whose failure depends on the *content* of its argument (AEAD decryption = authentication, float->Decimal conversion = range, UTF-8 validation, FromStr parsing, regex compilation) is never consumed directly by unwrap/expect; all other unwrap-on-call sites are listed as instances but not decided. R04k: `rust_decimal::Decimal` arithmetic on a run-time operand goes through the `checked_*` API; the `+ - * / %` operator impls panic on overflow and on a zero divisor in every build profile. R04l: ArgumentList::optional_enum accepts a literal only by Value equality with a declared variant (no case folding / trimming / prefix matching on the way), which is what the stdlib's `expect(\"validated enum\")` / `unreachable!()` arms after an enum argument rely on. R04m: every `rand::Rng::random_range` call (it panics on an empty range, and for floats on a range whose width is not finite) is dominated by an order comparison of its element type and, for floats, by an `is_finite` test.")
     chk.assumptions += ["builds with overflow checks (the test profile) panic on arithmetic overflow; release builds wrap — the rule treats both as defects"]
     M = sr.function_model(chk.facts)
     sr.rule_coercion_unwrapped(chk, "R04a", M)
@@ -24,6 +24,7 @@ def run(chk):
     rule_r04j(chk, M)
     rule_r04k(chk)
     rule_r04l(chk)
+    rule_r04m(chk)
 
 
 CAPTURES_INDEX_OK = {
@@ -187,3 +188,65 @@ def rule_r04l(chk):
         chk.violation(rid, b.file, ENUM_VALIDATOR, "normalised comparison", "optional_enum accepts a literal after normalising it (%s): a spelling that is not a "
                       "declared variant reaches stdlib code whose `expect(\"validated enum\")` / `unreachable!()` arms then panic at compile time or at run time"
                       % ", ".join(x.rsplit("::", 1)[1] for x in norm), detail=d, loc="%s:%s" % (b.file, b.line))
+
+
+# R04m --------------------------------------------------------------------------------------------
+def rule_r04m(chk):
+    import re
+    facts = chk.facts
+    rid = "R04m"
+    chk.rule(rid, "rand::Rng::random_range is called only behind an order test (non-empty range) and, for floats, an is_finite test (finite width)", floor=2)
+    pat = re.compile(r"rand::Rng>::(random_range|gen_range)::<(\w+),")
+    for i in facts.index:
+        n = i["name"]
+        if "/build/" in i["file"] or n.startswith("cli::"):
+            continue
+        b = facts.body(n)
+        if b is None:
+            continue
+        for bb, t in b.calls():
+            full = t.get("rfn_full") or t.get("fn_full") or ""
+            m = pat.search(full)
+            if not m:
+                continue
+            ety = m.group(2)
+            # where is the sampled Range built? here, or in a local helper whose result is passed on (get_range()?)
+            from facts import flow_sources, op_local
+            sites = []          # (body, block) of each Range construction that can reach the call
+            rl = op_local(t["args"][1]) if len(t["args"]) > 1 else None
+            srcs = flow_sources(b, rl) if rl is not None else set()
+            for sct in srcs:
+                if sct[0] == "agg" and "Range" in str(sct[2]):
+                    sites.append((b, sct[1]))
+                elif sct[0] == "call" and facts.has(sct[2]):
+                    hb = facts.body(sct[2])
+                    for bi, blk in enumerate(hb.blocks):
+                        for st in blk["s"]:
+                            if st["rv"]["k"] == "agg" and "Range" in str(st["rv"].get("adt")):
+                                sites.append((hb, bi))
+            if not sites:
+                chk.fail_closed(rid, "%s: cannot find where the range passed to random_range is built; re-derive the rule" % n)
+                continue
+
+            def guards(fb, at):
+                o = [bi for bi, blk in enumerate(fb.blocks) for st in blk["s"]
+                     if st["rv"]["k"] == "binop" and st["rv"]["op"] in ("Lt", "Le", "Gt", "Ge") and st["rv"].get("tya") == ety and fb.dominates(bi, at)]
+                f = [cb for cb, ct in fb.calls() if re.search(r"<impl f(32|64)>::is_finite$", (ct.get("rfn_full") or ct.get("fn_full") or fb.callee(ct))) and fb.dominates(cb, at)]
+                return o, f
+            per = [guards(fb, at) for fb, at in sites]
+            # a range built in this function may also be guarded between construction and the call
+            if any(fb is b for fb, _ in sites):
+                per = [guards(b, bb)]
+            order = [1] if all(o for o, _ in per) else []
+            finite = [1] if all(f for _, f in per) else []
+            need_finite = ety in ("f64", "f32")
+            d = {"fn": n, "call": full, "at": "%s:%s" % (b.file, t["ln"]), "element": ety, "range_built_in": sorted(set(fb.name for fb, _ in sites)), "order_test_dominates": bool(order), "is_finite_test_dominates": bool(finite)}
+            ok = bool(order) and (bool(finite) or not need_finite)
+            chk.instance(rid, d, ok=ok)
+            if not order:
+                chk.violation(rid, b.file, n, "random_range without order test", "%s samples a range that no dominating comparison shows non-empty: random_range panics "
+                              "(\"cannot sample empty range\") when max <= min" % n, detail=d, loc=d["at"])
+            elif need_finite and not finite:
+                chk.violation(rid, b.file, n, "float random_range without is_finite test", "%s samples a float range with no dominating is_finite test: an infinite bound "
+                              "(`to_float!(\"inf\")`) or a width that overflows makes rand's sampler return NonFinite, which random_range unwraps — the host panics" % n,
+                              detail=d, loc=d["at"])
